@@ -8,6 +8,7 @@ test per mode, and the geometry accessors."""
 from __future__ import annotations
 
 import operator
+import os
 from fractions import Fraction
 
 import numpy as np
@@ -19,6 +20,65 @@ from ..impl import make, quiet, exc_enum, MODES, full_snapshot, eq_snap
 RULE = ("cases = (class, kernel function, hyper-parameters incl. boundary values, sample, weight) with weights "
         "either reached by training or arbitrary well-formed; non-trivial when sample != weight-centre and the "
         "weight is not freshly created; distinct by hash of (class, function, params, x, w)")
+
+
+GEN_THEOREMS = ["fuzzy_choice", "fuzzy_match", "fuzzy_update", "fuzzy_new", "art1_choice", "art1_match", "art1_update",
+                "art1_new", "art2_choice", "art2_match", "art2_update", "art2_new", "sph_distance", "sph_choice",
+                "sph_match", "sph_update", "sph_new"]
+
+
+def prepare(ctx):
+    """Translator tie: regenerate lean/ArtGen/Kernels.lean from the Python source under test, rebuild the
+    equalities Gen.<Class>.<fn> = published rule (ArtGenProofs/GenSpec.lean) and audit their axioms.  A formula
+    changed in the source breaks one of these obligations for ALL inputs at once."""
+    import fcntl
+    import re
+    import subprocess
+    from .. import ktrans
+    from ..common import LEAN_DIR, REPO
+    from ..framework import ALLOWED_AXIOMS
+    names = ["Art.GenSpec." + t for t in GEN_THEOREMS]
+    ctx.extra_audit["obligations"] = len(names)
+    ctx.trusted.append("kernel translator harness/artv/ktrans.py (Python AST -> Lean; fails closed on unsupported syntax); "
+                       "covers category_choice / match_criterion / update / new_weight of FuzzyART, ART1, ART2A, HypersphereART")
+    with open(LEAN_DIR / ".gen.lock", "w") as lock:
+        fcntl.flock(lock, fcntl.LOCK_EX)
+        try:
+            ok, msg = ktrans.write(REPO)
+            ctx.log.append(f"ktrans: {msg}")
+            if not ok:
+                ctx.issue("audit", "obligation:GenSpec:translator", f"kernel translator could not translate the source: {msg}")
+                return
+            p = subprocess.run(["lake", "build", "ArtGenProofs"], cwd=LEAN_DIR, capture_output=True, text=True)
+            if p.returncode != 0:
+                errs = [l for l in (p.stdout + p.stderr).split("\n") if "error" in l][:6]
+                broken = sorted(set(re.findall(r"GenSpec\.lean:(\d+)", "\n".join(errs))))
+                ctx.issue("audit", "obligation:GenSpec:build",
+                          "generated kernels are no longer provably equal to the published rules: " + " | ".join(errs)[:600],
+                          {"generated_file": "lean/ArtGen/Kernels.lean", "errors": errs, "lines": broken})
+                return
+            src = "import ArtGenProofs.GenSpec\n" + "\n".join(f"#print axioms {n}" for n in names) + "\n"
+            tmp = LEAN_DIR / f".audit_gen_{os.getpid()}.lean"
+            tmp.write_text(src)
+            try:
+                q = subprocess.run(["lake", "env", "lean", tmp.name], cwd=LEAN_DIR, capture_output=True, text=True)
+            finally:
+                tmp.unlink(missing_ok=True)
+            flat = re.sub(r"\s+", " ", q.stdout + q.stderr)
+            for n in names:
+                m = re.search(r"'" + re.escape(n) + r"' (does not depend on any axioms|depends on axioms: \[([^\]]*)\])", flat)
+                if not m:
+                    ctx.issue("audit", "obligation:GenSpec:" + n, "theorem not checked")
+                    continue
+                ax = [] if m.group(2) is None else [a.strip() for a in m.group(2).split(",") if a.strip()]
+                ctx.extra_audit["axioms"][n] = ax
+                if all(a in ALLOWED_AXIOMS for a in ax):
+                    ctx.extra_audit["discharged"] += 1
+                else:
+                    ctx.issue("audit", "obligation:GenSpec:" + n, f"axioms {ax}")
+        finally:
+            if str(REPO) != "/repo":
+                ktrans.write("/repo")      # leave the committed generated file describing /repo
 
 
 def close(a, q, tol=1e-12):
